@@ -41,6 +41,16 @@ def load_reg():
 REG = load_reg()
 
 
+def build_stage(st):
+    cfg = None
+    if st.get("cfg") == "cmake":
+        cfg = build.cmake_cfg(tuple(st.get("cmake_args", ())), tag="cmakecfg" + st.get("cfgtag", ""))
+    return build.harness(st["variant"], st["name"], st["srcs"], wraps=st.get("wraps", ()),
+                         libs=st.get("libs", ("-lgnutls",)), defines=st.get("defines", ()),
+                         extra_cflags=st.get("cflags", ()), lib_cflags=st.get("lib_cflags", ()),
+                         cfgdir_override=cfg, tag=st.get("tag"))
+
+
 def load_known():
     p = os.path.join(VERIF, "known_findings.json")
     if not os.path.exists(p):
@@ -79,9 +89,7 @@ def main():
     results = []
     rc_all = 0
     for st in REG[pid]:
-        exe = build.harness(st["variant"], st["name"], st["srcs"], wraps=st.get("wraps", ()),
-                            libs=st.get("libs", ("-lgnutls",)), defines=st.get("defines", ()),
-                            extra_cflags=st.get("cflags", ()))
+        exe = build_stage(st)
         out = os.path.join(VERIF, "build", "out", "%s.%s.json" % (pid, st["name"]))
         if os.path.exists(out):
             os.unlink(out)
